@@ -461,7 +461,7 @@ def run_pairs(chk, kernels, pairs, invariants, label, key_prefix, max_violations
             idx = {n: i + 1 for i, n in enumerate(names)}
             doc = {"kernels": [_tlc_kernel(by_name[n]) for n in names],
                    "pairs": [{"mode": p["mode"], "a": idx[p["a"]], "b": idx[p["b"]], "pa": p["pa"], "pb": p["pb"],
-                              "inimode": p["inimode"]} for p in todo]}
+                              "inimode": p["inimode"], "extra": p.get("extra", by_name[p["a"]]["extra"])} for p in todo]}
             d = tlc.stage(f"s4p-{label}-{bi}", modules=["Kernel", "KernelPair"])
             inp = d / "in.json"
             inp.write_text(json.dumps(doc))
@@ -503,7 +503,7 @@ def run_pairs(chk, kernels, pairs, invariants, label, key_prefix, max_violations
             tlc.must_ok(r, f"KernelPair.tla {label} batch {bi}")
             raise MachineryError(f"KernelPair.tla {label}: unexpected TLC result {r.violated}:\n" + r.out[-2000:])
 
-    weights = [max(1, (by_name[p["a"]]["steps"] or 1) * 2 * (1 + len(by_name[p["a"]]["extra"]))) for p in pairs]
+    weights = [max(1, (by_name[p["a"]]["steps"] or 1) * 2 * (1 + len(p.get("extra", by_name[p["a"]]["extra"])))) for p in pairs]
     with cf.ThreadPoolExecutor(max_workers=NPROC) as ex:
         for f in [ex.submit(one, b, i) for i, b in enumerate(_split(pairs, weights, NPROC))]:
             f.result()
@@ -609,7 +609,7 @@ def pair_control(chk, kernels, pairs):
             continue
         ka["name"] = ka["name"] + "#corrupted"
         doc = {"kernels": [_tlc_kernel(ka), _tlc_kernel(kb)],
-               "pairs": [{"mode": "equiv", "a": 1, "b": 2, "pa": 1, "pb": 1, "inimode": "base"}]}
+               "pairs": [{"mode": "equiv", "a": 1, "b": 2, "pa": 1, "pb": 1, "inimode": "base", "extra": []}]}
         d = tlc.stage("s4-control-pair", modules=["Kernel", "KernelPair"])
         inp = d / "in.json"
         inp.write_text(json.dumps(doc))
@@ -760,15 +760,48 @@ READS_ENTRIES = {"coefficient_dropout", "all_types_triangle", "poisson_p2_triang
 
 
 # ============================================================================================= C17 half
+def differing_vectors(k, seed, plane):
+    """Entity / permutation vectors for the optimiser pair runs.  For interior facets the two sides must DIFFER
+    (with equal values the '+' and '-' table accesses coincide and two programs can agree by accident):
+    plane 1 gets (0,1),(1,2),(2,0) x permutation codes (0,1),(1,0),(last,0); the other planes one seeded random
+    vector with e0 != e1 (and q0 != q1 where there is more than one code) each."""
+    ve, vq = k["valid"]["e"], k["valid"]["q"]
+    if not ve:
+        return [{"e": [], "q": []}]
+    rnd = random.Random(f"optini-{seed}-{k['label']}-{plane}")
+    if len(ve) == 1:
+        vals = ve[0]
+        qs = [vq[0][0]] if vq else []
+        if plane == 1:
+            picks = sorted({vals[0], vals[-1], vals[len(vals) // 2]})
+            return [{"e": [x], "q": ([vq[0][i % len(vq[0])]] if vq else [])} for i, x in enumerate(picks)]
+        return [{"e": [rnd.choice(vals)], "q": ([rnd.choice(vq[0])] if vq else qs)}]
+    n, m = len(ve[0]), len(vq[0]) if vq else 1
+
+    def qpair(a, b):
+        return [vq[0][a % m], vq[1][b % m]] if vq else []
+    if plane == 1:
+        return [{"e": [ve[0][0], ve[1][1 % n]], "q": qpair(0, 1)},
+                {"e": [ve[0][1 % n], ve[1][2 % n]], "q": qpair(1, 0)},
+                {"e": [ve[0][2 % n], ve[1][0]], "q": qpair(m - 1, 0)}]
+    e0 = rnd.randrange(n)
+    e1 = (e0 + 1 + rnd.randrange(n - 1)) % n if n > 1 else e0
+    q0 = rnd.randrange(m)
+    q1 = (q0 + 1 + rnd.randrange(m - 1)) % m if m > 1 else q0
+    return [{"e": [ve[0][e0], ve[1][e1]], "q": qpair(q0, q1)}]
+
+
 OPT_ENTRIES_QUICK = ["poisson_p2_triangle", "elasticity_vp1_triangle", "hdiv_rt_triangle", "q1_quadrilateral", "facets_dg1_triangle",
                      "facets_p2_triangle_coeff", "all_types_triangle", "coefficient_dropout", "tensor_constants", "multi_degree",
                      "diagonal_part", "nonlinear_math", "hyperelastic_small", "manifold_p1_triangle_3d", "facets_p1_tetrahedron",
-                     "q2_quadrilateral_sumfact", "poisson_p1_tetrahedron", "hcurl_n1_triangle", "p2_geometry_triangle"]
+                     "q2_quadrilateral_sumfact", "poisson_p1_tetrahedron", "hcurl_n1_triangle", "p2_geometry_triangle",
+                     "dS_bilinear_triangle", "dS_bilinear_tetrahedron", "dS_bilinear_quadrilateral", "q1_quadrilateral_sumfact_bilinear",
+                     "facets_p1_interval", "facets_q1_quadrilateral", "expr_with_argument", "expr_facet_points"]
 
 
 def run_optimizer(chk):
     cfgt = _tier_cfg(chk)
-    names = [n for n in cfgt["entries"] if kcorpus.ENTRIES[n][1] == "form" and (not cfgt["quick"] or n in OPT_ENTRIES_QUICK)]
+    names = [n for n in cfgt["entries"] if not cfgt["quick"] or n in OPT_ENTRIES_QUICK]
     variants = ("full", "none", "sections", "loops", "licm")
     kernels, errors, bst = build(chk, names, variants=variants, record_calls=True, demos=cfgt["demos"], nplanes=3)
     _report_build_errors(chk, errors, "C17 corpus")
@@ -776,7 +809,7 @@ def run_optimizer(chk):
     full = {k["label"]: k for k in kernels if k["variant"] == "full"}
     pairs, used = [], {}
     nplanes = (1, 3, 5)                           # three independent seeds of input data (A0 = 0 planes)
-    seen_code, identical = {}, 0
+    seen_code, identical, by_label = {}, 0, {}
     for k in kernels:
         if k["variant"] == "full" or k["label"] not in full:
             continue
@@ -791,11 +824,21 @@ def run_optimizer(chk):
         seen_code[(k["label"], h)] = k["variant"]
         for kk in (k, f):
             if kk["name"] not in used:
-                choose_inis(kk, chk.seed, 0, 0 if cfgt["quick"] else 2, force="base")
-                kk["runplanes"] = [1]
+                kk["inimode"], kk["extra"], kk["runplanes"] = "list", [], [1]
                 used[kk["name"]] = kk
         for p in nplanes:
-            pairs.append({"mode": "equiv", "a": k["name"], "b": f["name"], "pa": p, "pb": p, "inimode": "base"})
+            vecs = differing_vectors(f, chk.seed, p)
+            if cfgt["quick"] and k["variant"] in ("sections", "loops"):
+                vecs = vecs[:1]            # quick tier: the two fusion passes alone get one (differing) vector per plane
+            pairs.append({"mode": "equiv", "a": k["name"], "b": f["name"], "pa": p, "pb": p, "inimode": "list", "extra": vecs})
+        by_label.setdefault(k["label"], {})[k["variant"]] = k
+    # `no pass` against `licm alone` directly, for the kernels where licm did something
+    for lab, vs in by_label.items():
+        if "none" in vs and "licm" in vs and (not cfgt["quick"] or full[lab]["itype"] == "interior_facet"):
+            pairs.append({"mode": "equiv", "a": vs["none"]["name"], "b": vs["licm"]["name"], "pa": 1, "pb": 1, "inimode": "list",
+                          "extra": differing_vectors(full[lab], chk.seed, 1)})
+    n_expr = sum(1 for k in kernels if k["variant"] == "full" and k["itype"] == "expression")
+    n_dS2 = sum(1 for k in used.values() if k["variant"] == "full" and k["itype"] == "interior_facet" and len(k["ext"]["A"]) == 2)
     ps = run_pairs(chk, list(used.values()), pairs, ["Equivalent", "PairClean"], "c17", "C17")
     pair_control(chk, list(used.values()), pairs)
     differing = sum(1 for k in used.values() if k["variant"] != "full" and
@@ -803,6 +846,9 @@ def run_optimizer(chk):
     chk.add(optimizer_pairs=ps["pairs_done"], optimizer_pairs_outside_value_model=ps["dz"], optimizer_calls_recorded=bst["opt_calls"],
             optimizer_kernels=len([k for k in used.values() if k["variant"] == "full"]), optimizer_variants_differing=differing,
             optimizer_states=ps["states"], optimizer_build=bst, optimizer_half="run", optimizer_variants_identical_to_another=identical,
+            optimizer_bilinear_interior_facet_kernels=n_dS2, optimizer_expression_kernels_without_optimize_call=n_expr,
+            optimizer_vectors="interior facets: (0,1),(1,2),(2,0) x codes (0,1),(1,0),(last,0) on plane 1, one seeded random vector "
+                              "with differing sides on each other plane; `no pass` vs `licm alone` also compared directly",
             optimizer_rule="for every corpus kernel the real generators are run with optimizer.optimize replaced by: nothing, "
                            "fuse_sections only, fuse_loops only, licm only (the unoptimised statement lists are the recorded inputs of "
                            "every optimize call); each variant and the fully optimised kernel run in lock step on the same three "
